@@ -1,8 +1,37 @@
-"""C02: decided on spec/Cascade.tla (TLC) + trace validation of the real controller (spec/CascadeTrace.tla)."""
+"""C02: (1) controller half on spec/Cascade.tla (TLC) + trace validation of the real controller (shared engine);
+(2) worker half on spec/Worker.tla: every message order up to a bound fed to the real entrypoint(), judged by TLC."""
+import json
+import logging
+
+from .. import p3
 from ..cascade_engine import report
 
 LEVEL = "model_checking"
 
 
+def worker_half(ctx):
+    logging.disable(logging.CRITICAL)
+    from ..drive import worker
+    consts = {"MaxLen": "5" if ctx.quick else "6"}
+    cases_file, cases = p3.generate(ctx, "Worker", consts, env={"PASS": "generate"}, tag="wgen")
+    results = [worker.run_sequence(list(c)) for c in cases]
+    rf = ctx.scratch / "worker_results.json"
+    rf.write_text(json.dumps(results))
+    bad = p3.judge(ctx, "Worker", consts, cases_file, rf, env={"PASS": "judge", "JUDGE_CASES": str(cases_file)}, tag="wjudge")
+    for i, names in sorted(bad.items()):
+        if i == 0:
+            ctx.violate("worker_spec:" + "+".join(sorted(names)), "spec/Worker.tla violates its own clause", None)
+            continue
+        ctx.violate("worker:" + "+".join(sorted(names)), f"real worker entrypoint on message order {cases[i-1]}: {sorted(names)}; log {results[i-1]['log']}",
+                    {"messages": cases[i - 1], "observed": results[i - 1]}, clause="+".join(sorted(names)))
+    ctx.coverage["worker_message_orders"] = len(cases)
+    ctx.coverage["worker_orders_with_deferral"] = sum(1 for c in cases if any(m.startswith("ts_") for m in c) and
+                                                      any(c.index(m) < max([c.index(x) for x in c if x.startswith("pub_")] or [-1])
+                                                          for m in c if m.startswith("ts_")))
+    ctx.sample({"worker_message_order": cases[len(cases) // 2], "observed_log": results[len(cases) // 2]["log"]})
+
+
 def run(ctx):
     report(ctx, "C02")
+    worker_half(ctx)
+    ctx.coverage["traces_validated_against_impl"] += ctx.coverage["worker_message_orders"]
